@@ -9,9 +9,10 @@
    `_taxon_sequence_map` is an insertion-ordered association list (Python dict):
    `d[k] = v` keeps the position of an existing key and appends a new one.
    Every method below copies sequences (`character_sequence_type(other_seq)` makes a new
-   sequence object holding the same values), so rows are values here; the one place where
-   a sequence is extended by *itself* (`m.extend_sequences(m)`, `m.extend_matrix(m)`) is
-   modelled by `extend_live`, the list that grows while a generator walks over it.
+   sequence object holding the same values), so rows are values here; a sequence extended by
+   *itself* (`m.extend_sequences(m)`, `m.extend_matrix(m)`) is doubled, because
+   CharacterDataSequence.extend materialises its argument first (`list(character_values)`;
+   that this is what the source does is part of the translator tie, Gen/CharMatrix.v).
    Labels are ids (Z).  `lower` (str.lower: `character_subsets` is an OrderedCaselessDict),
    `suffix l i` ("%s_%03d" % (l, i)) and `locus i` ("locus%03d" % i) are section variables. *)
 From Coq Require Import ZArith List Bool.
@@ -82,17 +83,6 @@ Fixpoint select_from (idx : list Z) (i : Z) (r : row) : row :=
   match r with
   | [] => []
   | c :: r' => if memb i idx then c :: select_from idx (i + 1) r' else select_from idx (i + 1) r'
-  end.
-
-(* lst.extend(g) where g = (v for v in lst) walks over the very list that is growing
-   (CharacterDataSequence.extend(self) when a matrix is extended by itself) *)
-Fixpoint extend_live (fuel : nat) (l : row) (i : nat) : res row :=
-  match fuel with
-  | O => OutOfFuel
-  | S f => match nth_error l i with
-           | None => Ok l
-           | Some x => extend_live f (l ++ [x]) (S i)
-           end
   end.
 
 (* ---- iteration over a matrix: in NAMESPACE order, restricted to taxa that have a row ---- *)
@@ -202,22 +192,6 @@ Definition extend_matrix_rows (s o : rows) : rows :=
                         | None => aput (fst p) (snd p) s
                         end) o s.
 
-(* other_matrix is self: every own sequence is extended by itself, in dict order *)
-Fixpoint extend_self_rows (rs : rows) : res rows :=
-  match rs with
-  | [] => Ok []
-  | (t, r) :: rest =>
-    match extend_live (S (length r)) r 0 with
-    | Ok r' => match extend_self_rows rest with
-               | Ok rest' => Ok ((t, r') :: rest')
-               | Err e => Err e
-               | OutOfFuel => OutOfFuel
-               end
-    | Err e => Err e
-    | OutOfFuel => OutOfFuel
-    end
-  end.
-
 (* if other_matrix.taxon_namespace is not self.taxon_namespace: raise TaxonNamespaceIdentityError (a ValueError) *)
 Definition same_ns (self other : matrix) : bool := Z.eqb (m_ns other) (m_ns self).
 
@@ -240,14 +214,6 @@ Definition extend_sequences (self other : matrix) (addnew : bool) : res matrix :
 Definition extend_matrix (self other : matrix) : res matrix :=
   if negb (same_ns self other) then Err ValueErr
   else Ok (set_rows self (extend_matrix_rows (m_rows self) (m_rows other))).
-
-(* m.extend_sequences(m) / m.extend_matrix(m) *)
-Definition extend_by_self (self : matrix) : res matrix :=
-  match extend_self_rows (m_rows self) with
-  | Ok rs => Ok (set_rows self rs)
-  | Err e => Err e
-  | OutOfFuel => OutOfFuel
-  end.
 
 (* remove_sequences: for taxon in taxa: del map[taxon]   (KeyError leaves the earlier deletions done) *)
 Fixpoint remove_rows (rs : rows) (ts : list tid) : rows * option err :=
@@ -275,12 +241,6 @@ Section WithLabels.
 Variable lower : lbl -> lbl.
 Variable suffix : lbl -> Z -> lbl.
 Variable locus : Z -> lbl.
-(* VARIANT SWITCH (DESIGN 5.2, finding extend-self-hang): true = CharacterDataSequence.extend walks a
-   live generator over its argument, so a sequence extended by itself never finishes (the code as it is
-   now); false = the argument is materialised first (the proposed repair).  Which form the working tree
-   has is observed by the harness on every run and passed in the case. *)
-Variable self_extend_live : bool.
-
 (* `label in character_subsets` (caseless) *)
 Definition has_key (l : lbl) (ss : subsets) : bool :=
   existsb (fun p => Z.eqb (lower (fst p)) (lower l)) ss.
@@ -492,11 +452,9 @@ Definition step (w : world) (o : op) : world * out :=
   | ReplaceSeqs m o => with2 w m o (fun mm mo => lift w m (replace_sequences mm mo) OUnit)
   | UpdateSeqs m o => with2 w m o (fun mm mo => lift w m (update_sequences mm mo) OUnit)
   | ExtendSeqs m o addnew =>
-    with2 w m o (fun mm mo => if Z.eqb m o && self_extend_live then lift w m (extend_by_self mm) OUnit
-                              else lift w m (extend_sequences mm mo addnew) OUnit)
+    with2 w m o (fun mm mo => lift w m (extend_sequences mm mo addnew) OUnit)
   | ExtendMatrix m o =>
-    with2 w m o (fun mm mo => if Z.eqb m o && self_extend_live then lift w m (extend_by_self mm) OUnit
-                              else lift w m (extend_matrix mm mo) OUnit)
+    with2 w m o (fun mm mo => lift w m (extend_matrix mm mo) OUnit)
   | RemoveSeqs m ts =>
     with1 w m (fun T mm => let '(rs, e) := remove_rows (m_rows mm) ts in
                            (upd w m (set_rows mm rs), match e with None => OUnit | Some x => OErr x end))
@@ -560,14 +518,13 @@ Record case := mkCase {
   c_lower : list (lbl * lbl);                    (* str.lower on the label pool *)
   c_suffix : list (lbl * list (Z * lbl));        (* "%s_%03d" % (l, i) on the pool *)
   c_locus : list (Z * lbl);                      (* "locus%03d" % i *)
-  c_live : bool;                                 (* variant observed on the implementation *)
   c_nss : list (nsid * list tid);
   c_init : list (mid * matrix);
   c_ops : list op;
   c_expected : list (out * list (mid * matrix))  (* per step: result, matrices that changed *)
 }.
 
-Definition case_step (c : case) := step (tbl1 (c_lower c) (fun x => x)) (tbl2 (c_suffix c)) (tbl1 (c_locus c) (fun i => -(2000000 + i))) (c_live c).
+Definition case_step (c : case) := step (tbl1 (c_lower c) (fun x => x)) (tbl2 (c_suffix c)) (tbl1 (c_locus c) (fun i => -(2000000 + i))).
 
 Definition case_world (c : case) : world := mkW (c_nss c) (c_init c) (zlen (c_init c)).
 
